@@ -93,6 +93,9 @@ def gen_cases(rng, tier):
         cases.append({"kind": "chain", "seed": rng.randrange(2**32), "n": 10 if tier == "quick" else 14, "tier": tier})
     for _ in range(nrt):
         cases.append({"kind": "roundtrip", "seed": rng.randrange(2**32), "n": 5 if tier == "quick" else 7, "tier": tier})
+    nlive = 64 if tier == "quick" else 640
+    for _ in range(nlive):
+        cases.append({"kind": "live", "seed": rng.randrange(2**32), "n": 6 if tier == "quick" else 8, "tier": tier})
     return cases
 
 
@@ -1269,8 +1272,17 @@ VARIANTS_QUICK = [
     ("json", "x.json", {}, {}),
     ("json.gz", "x.json.gz", {}, {}),
     ("pickle", "x.pickle", {}, {}),
+    # an explicit separator that is not the default of the file suffix: write(sep=) and load_table(sep= / delimiter=)
+    ("csv+sep=tab", "m.csv", {"sep": "\t"}, {"sep": "\t"}),
+    ("tsv+delimiter=;", "m.tsv", {"sep": ";"}, {"delimiter": ";"}),
+    ("tsv+sep=,", "n.tsv", {"sep": ","}, {"sep": ","}),
+    ("csv.gz+delimiter=|", "m.csv.gz", {"sep": "|"}, {"delimiter": "|"}),
+    ("tsv.gz+sep=;", "m.tsv.gz", {"sep": ";"}, {"sep": ";"}),
 ]
-SEP_OF = {"tsv": "\t", "csv": ",", "tsv.gz": "\t", "csv.gz": ",", "compress=True": "\t", "sep=;": ";", "sep=|": "|", "sep=space": " "}
+SEP_OF = {
+    "tsv": "\t", "csv": ",", "tsv.gz": "\t", "csv.gz": ",", "compress=True": "\t", "sep=;": ";", "sep=|": "|", "sep=space": " ",
+    "csv+sep=tab": "\t", "tsv+delimiter=;": ";", "tsv+sep=,": ",", "csv.gz+delimiter=|": "|", "tsv.gz+sep=;": ";",
+}
 
 
 def family(variant):
@@ -1319,6 +1331,8 @@ def run_roundtrip(res, spec, only=None, workdir=None):
 
 def _one_variant(res, spec, t, variant, path, wkw, lkw, header, rows, types, dup, load_table):
     fam = family(variant)
+    # the class named in a mechanism: a separator given explicitly against the suffix default is its own class
+    label = "delimited-explicit-sep-vs-suffix" if "+" in variant else fam
     sep = SEP_OF.get(variant)
     n = len(rows)
     classes = table_classes(spec, sep)
@@ -1332,7 +1346,7 @@ def _one_variant(res, spec, t, variant, path, wkw, lkw, header, rows, types, dup
     tclass_ = "zero-rows" if n == 0 else (hostile[0] if hostile else "plain")
 
     def witness(mech, **detail):
-        res.witness(f"C20/roundtrip/{fam}/{mech}", variant=variant, table=spec, replay_case=replay, **detail)
+        res.witness(f"C20/roundtrip/{label}/{mech}", variant=variant, table=spec, replay_case=replay, **detail)
 
     # ---- write
     if path.exists():
@@ -1341,7 +1355,7 @@ def _one_variant(res, spec, t, variant, path, wkw, lkw, header, rows, types, dup
         t.write(path, **wkw)
     except Exception as e:  # noqa: BLE001
         res.evals += 1
-        res.witness(exc_mechanism(f"C20/roundtrip/{fam}/write/{tclass_}", e), variant=variant, table=spec, error=repr(e)[:300], replay_case=replay)
+        res.witness(exc_mechanism(f"C20/roundtrip/{label}/write/{tclass_}", e), variant=variant, table=spec, error=repr(e)[:300], replay_case=replay)
         return
     real_path = path
     if wkw.get("compress"):
@@ -1384,7 +1398,7 @@ def _one_variant(res, spec, t, variant, path, wkw, lkw, header, rows, types, dup
         ghdr, grows, problems = observe(g)
     except Exception as e:  # noqa: BLE001
         res.evals += 1
-        res.witness(exc_mechanism(f"C20/roundtrip/{fam}/load/{tclass_}", e), variant=variant, table=spec, error=repr(e)[:300], replay_case=replay)
+        res.witness(exc_mechanism(f"C20/roundtrip/{label}/load/{tclass_}", e), variant=variant, table=spec, error=repr(e)[:300], replay_case=replay)
         return
     res.evals += 1
     res.count("decided:rt-header")
@@ -1511,9 +1525,347 @@ def run_roundtrip_batch(res, case):
 # ---------------------------------------------------------------------------
 
 
+# ---------------------------------------------------------------------------
+# live histories: attribute / column mutations on ONE table object, every read path observed after every step
+
+
+LIVE_VARIANTS = ["tsv", "csv", "csv.gz", "json", "pickle", "sep=;"]
+LIVE_FILE = {"tsv": "l.tsv", "csv": "l.csv", "csv.gz": "l.csv.gz", "json": "l.json", "pickle": "l.pickle", "sep=;": "l.txt"}
+
+
+def gen_live_spec(rng):
+    ncol = rng.randint(2, 5)
+    types = [rng.choice(["int", "int", "float", "str", "str", "bool"]) for _ in range(ncol)]
+    n = rng.randint(1, 6)
+    rows = []
+    for i in range(n):
+        rows.append([gen_cell(rng, t) for t in types])
+    # make some columns usable as an index (unique values)
+    for j, t in enumerate(types):
+        if t in ("int", "str") and rng.random() < 0.6:
+            for i in range(n):
+                rows[i][j] = (10 + i * 3) if t == "int" else f"r{i}{'ab'[i % 2]}"
+            if rng.random() < 0.5:
+                perm = list(range(n))
+                rng.shuffle(perm)
+                col = [rows[i][j] for i in perm]
+                for i in range(n):
+                    rows[i][j] = col[i]
+    spec = {"header": [f"c{i}" for i in range(ncol)], "types": types, "rows": rows, "title": "", "legend": "", "index": None, "digits": 4}
+    if rng.random() < 0.2:
+        cands = [j for j, t in enumerate(types) if t in ("int", "str") and len({r[j] for r in rows}) == n]
+        if cands:
+            spec["index"] = spec["header"][rng.choice(cands)]
+    spec["variant0"] = rng.choice(LIVE_VARIANTS)
+    return spec
+
+
+class Live:
+    """model: header order + rows + index_name + per-column format templates"""
+
+    def __init__(self, res, spec, ops=None, rng=None, depth=0, workdir=None):
+        self.res, self.spec0, self.replay_ops, self.rng, self.depth, self.workdir = res, spec, ops, rng, depth, workdir
+        self.done = []
+        hdr = list(spec["header"])
+        idx = spec.get("index")
+        order = [hdr.index(c) for c in ([idx] + [c for c in hdr if c != idx] if idx else hdr)]
+        self.header = [hdr[i] for i in order]
+        self.types = [spec["types"][i] for i in order]
+        self.rows = [tuple(r[i] for i in order) for r in spec["rows"]]
+        self.index = idx
+        self.templates = {}
+        self.t = None
+
+    def replay_case(self, op=None):
+        return {"kind": "live-one", "table": self.spec0, "ops": list(self.done) + ([op] if op else [])}
+
+    def state(self):
+        return {"header": self.header, "rows": [list(r) for r in self.rows], "index": self.index}
+
+    def fail(self, path, after, **detail):
+        self.res.witness(f"C20/live/{path}/after-{after}", model=self.state(), history=[o["op"] for o in self.done], replay_case=self.replay_case(), **detail)
+
+    # -- all read paths -------------------------------------------------------
+    def observe(self, after, variant):
+        """True if every read path agrees with the model; one witness (the first failing path) otherwise"""
+        from cogent3 import load_table
+
+        res, t = self.res, self.t
+        hdr, rows, n = self.header, self.rows, len(self.rows)
+        exp_rows = nrows(rows)
+        checks = []
+
+        def path(name, fn):
+            checks.append((name, fn))
+
+        path("header", lambda: (list(t.header), hdr))
+        path("shape", lambda: (tuple(t.shape), (n, len(hdr))))
+        path("columns.order", lambda: (list(t.columns.order), hdr))
+        path("columns", lambda: ({c: nrow(t.columns[c].tolist()) for c in t.columns}, {c: tuple(norm(r[j]) for r in rows) for j, c in enumerate(hdr)}))
+        path("columns.to_dict", lambda: ({c: nrow(v) for c, v in t.columns.to_dict().items()}, {c: tuple(norm(r[j]) for r in rows) for j, c in enumerate(hdr)}))
+        path("array", lambda: (nrows(t.array.tolist()), exp_rows))
+        path("columns.array", lambda: (nrows(t.columns.array.tolist()), exp_rows))
+        path("to_list", lambda: (nrows([(v,) for v in t.to_list()] if len(hdr) == 1 else t.to_list()), exp_rows))
+        if self.index:
+            keys = [norm(r[hdr.index(self.index)]) for r in rows]
+        else:
+            keys = [norm(i) for i in range(n)]
+        exp_dict = {k: {c: norm(v) for c, v in zip(hdr, r)} for k, r in zip(keys, rows)}
+        path("to_dict", lambda: ({norm(k): {c: norm(v) for c, v in d.items()} for k, d in t.to_dict().items()}, exp_dict))
+        path("iter-rows", lambda: ([{c: norm(v) for c, v in r.to_dict().items()} for r in t], [{c: norm(v) for c, v in zip(hdr, r)} for r in rows]))
+        path("to_rich_dict", lambda: (
+            (list(t.to_rich_dict()["data"]["order"]), {c: nrow(d["values"]) for c, d in t.to_rich_dict()["data"]["columns"].items()}),
+            (hdr, {c: tuple(norm(r[j]) for r in rows) for j, c in enumerate(hdr)}),
+        ))
+        # single cells
+        if not self.index or self.types[hdr.index(self.index)] == "str":
+            ki = hdr.index(self.index) if self.index else None
+            sel = [(i, j) for i in range(n) for j in range(len(hdr))][:: max(1, (n * len(hdr)) // 6)]
+            path("getitem-cell", lambda: ([norm(t[(rows[i][ki] if self.index else i), hdr[j]]) for i, j in sel], [norm(rows[i][j]) for i, j in sel]))
+        path("getitem-columns", lambda: (nrows(t[:, list(hdr)].array.tolist()), exp_rows))
+
+        def to_csv_path():
+            if len(hdr) == 1 and any(r[0] == "" for r in rows):
+                return (0, 0)
+            parsed = list(csv.reader(io.StringIO(t.to_csv(), newline=""), delimiter=","))
+            exp = [hdr]
+            for r in rows:
+                out = []
+                for c, ty, v in zip(hdr, self.types, r):
+                    tmpl = self.templates.get(c)
+                    out.append(tmpl % v if tmpl else formatted_text(v, ty, 4))
+                exp.append(out)
+            return (parsed, exp)
+
+        path("to_csv", to_csv_path)
+
+        def write_path():
+            fam = family(variant)
+            p = self.workdir / LIVE_FILE[variant]
+            if p.exists():
+                p.unlink()
+            kw = {"sep": ";"} if variant == "sep=;" else {}
+            t.write(p, **kw)
+            out = {}
+            lkw = dict(kw)
+            if fam == "delimited":
+                sep = SEP_OF[variant]
+                opener = gzip.open if str(p).endswith(".gz") else open
+                with opener(p, "rt", newline="") as f:
+                    parsed = list(csv.reader(f, delimiter=sep))
+                if self.title_set:
+                    parsed = parsed[1:]
+                    lkw["with_title"] = True
+                if self.legend_set:
+                    parsed = parsed[:-1]
+                    lkw["with_legend"] = True
+                out["file"] = parsed
+            g = load_table(p, **lkw)
+            ghdr, grows, _ = observe(g)
+            text = file_text if fam == "delimited" else obj_text
+            out["reload"] = (ghdr, [[obj_text(v) for v in r] for r in grows])
+            exp = {"reload": (hdr, [[text(v) for v in r] for r in rows])}
+            if fam == "delimited":
+                exp["file"] = [hdr] + [[file_text(v) for v in r] for r in rows]
+            return (out, exp)
+
+        path(f"write-reload", write_path)
+
+        for name, fn in checks:
+            res.evals += 1
+            res.count("live-read:" + name)
+            try:
+                got, exp = fn()
+            except Exception as e:  # noqa: BLE001
+                self.res.witness(
+                    exc_mechanism(f"C20/live/{name}/after-{after}", e), model=self.state(), history=[o["op"] for o in self.done],
+                    error=repr(e)[:300], variant=variant, replay_case=self.replay_case(),
+                )
+                return False
+            if got != exp:
+                self.fail(name, after, got=got, expected=exp, variant=variant)
+                return False
+        if n >= 2:
+            res.sig("live", after, tuple(o["op"] for o in self.done[-3:]), bool(self.index), variant)
+        return True
+
+    # -- driver ----------------------------------------------------------------
+    def run(self):
+        res = self.res
+        self.title_set = self.legend_set = False
+        try:
+            self.t = make_real(self.spec0)
+        except Exception as e:  # noqa: BLE001
+            res.evals += 1
+            res.witness(exc_mechanism("C20/live/make_table", e), table=self.spec0, error=repr(e)[:300], replay_case=self.replay_case())
+            return
+        res.count("live-tables")
+        if not self.observe("make_table", self.spec0.get("variant0", "tsv")):
+            return
+        steps = self.replay_ops if self.replay_ops is not None else range(self.depth)
+        for st in steps:
+            op = st if isinstance(st, dict) else self.gen_op()
+            if op is None:
+                break
+            res.count("live-op:" + op["op"])
+            ok = self.apply(op)
+            self.done.append(op)
+            if not ok:
+                break
+            if not self.observe(op["op"], op["variant"]):
+                break
+
+    def gen_op(self):
+        rng = self.rng
+        hdr, n = self.header, len(self.rows)
+        step = len(self.done)
+        variant = rng.choice(LIVE_VARIANTS)
+        for _ in range(8):
+            kind = rng.choice(["set-index", "set-index", "set-index", "clear-index", "set-title", "set-legend", "format_column", "set-format", "add-column", "del-column", "replace-column", "read-again"])
+            if kind == "set-index":
+                cands = [c for c, t in zip(hdr, self.types) if t in ("int", "str", "float", "bool") and c != self.index]
+                if not cands:
+                    continue
+                # prefer a column that is not already first, and mostly a usable (unique) one
+                uniq = [c for c in cands if len({norm(r[hdr.index(c)]) for r in self.rows}) == n]
+                pool = uniq if uniq and rng.random() < 0.85 else cands
+                late = [c for c in pool if hdr.index(c) > 0]
+                return {"op": kind, "col": rng.choice(late or pool), "variant": variant}
+            if kind == "clear-index":
+                if not self.index:
+                    continue
+                return {"op": kind, "variant": variant}
+            if kind == "set-title":
+                return {"op": kind, "value": rng.choice(["T1", "my title", ""]), "variant": variant}
+            if kind == "set-legend":
+                return {"op": kind, "value": rng.choice(["a legend", ""]), "variant": variant}
+            if kind == "format_column":
+                fl = [c for c, t in zip(hdr, self.types) if t == "float"]
+                if not fl:
+                    continue
+                return {"op": kind, "col": rng.choice(fl), "template": rng.choice(["%.2f", "%.1e"]), "variant": variant}
+            if kind == "set-format":
+                return {"op": kind, "value": rng.choice(["md", "rst", "simple", "tsv"]), "variant": variant}
+            if kind == "add-column":
+                ty = rng.choice(["int", "float", "str", "bool"])
+                return {"op": kind, "name": f"n{step}", "type": ty, "values": [gen_cell(rng, ty) for _ in range(n)], "variant": variant}
+            if kind == "del-column":
+                cands = [c for c in hdr if c != self.index]
+                if len(hdr) < 2 or not cands:
+                    continue
+                return {"op": kind, "col": rng.choice(cands), "variant": variant}
+            if kind == "replace-column":
+                cands = [c for c in hdr if c != self.index]
+                if not cands:
+                    continue
+                c = rng.choice(cands)
+                ty = self.types[hdr.index(c)]
+                return {"op": kind, "col": c, "values": [gen_cell(rng, ty) for _ in range(n)], "variant": variant}
+            if kind == "read-again":
+                return {"op": kind, "variant": variant}
+        return None
+
+    def apply(self, op):
+        """mutate the live table and the model; False stops the history"""
+        t, k = self.t, op["op"]
+        hdr = self.header
+        try:
+            if k == "set-index":
+                c = op["col"]
+                j = hdr.index(c)
+                unique = len({norm(r[j]) for r in self.rows}) == len(self.rows)
+                try:
+                    t.index_name = c
+                except ValueError as e:
+                    if not unique and "unique" in str(e):
+                        self.res.refused += 1  # documented: all values of an index column must be unique
+                        self.res.count("live:set-index-refused-not-unique")
+                        return True
+                    raise
+                if not unique:
+                    self.res.evals += 1
+                    self.fail("index_name", "set-index-not-unique-accepted", column=c)
+                    return False
+                order = [j] + [i for i in range(len(hdr)) if i != j]
+                self.header = [hdr[i] for i in order]
+                self.types = [self.types[i] for i in order]
+                self.rows = [tuple(r[i] for i in order) for r in self.rows]
+                self.index = c
+                if j > 0:
+                    self.res.count("live:set-index-moves-column")
+            elif k == "clear-index":
+                t.index_name = None
+                self.index = None
+            elif k == "set-title":
+                t.title = op["value"]
+                self.title_set = bool(op["value"])
+            elif k == "set-legend":
+                t.legend = op["value"]
+                self.legend_set = bool(op["value"])
+            elif k == "format_column":
+                t.format_column(op["col"], op["template"])
+                self.templates[op["col"]] = op["template"]
+            elif k == "set-format":
+                t.format = op["value"]
+            elif k == "add-column":
+                t.columns[op["name"]] = list(op["values"])
+                self.header = hdr + [op["name"]]
+                self.types = self.types + [op["type"]]
+                self.rows = [r + (v,) for r, v in zip(self.rows, op["values"])]
+            elif k == "del-column":
+                j = hdr.index(op["col"])
+                del t.columns[op["col"]]
+                self.header = hdr[:j] + hdr[j + 1 :]
+                self.types = self.types[:j] + self.types[j + 1 :]
+                self.rows = [r[:j] + r[j + 1 :] for r in self.rows]
+                self.templates.pop(op["col"], None)
+            elif k == "replace-column":
+                j = hdr.index(op["col"])
+                t.columns[op["col"]] = list(op["values"])
+                self.rows = [r[:j] + (v,) + r[j + 1 :] for r, v in zip(self.rows, op["values"])]
+            elif k == "read-again":
+                pass
+        except Exception as e:  # noqa: BLE001
+            self.res.evals += 1
+            self.res.witness(
+                exc_mechanism(f"C20/live/mutate/{k}", e), model=self.state(), history=[o["op"] for o in self.done], op=op,
+                error=repr(e)[:300], replay_case=self.replay_case(op),
+            )
+            return False
+        return True
+
+
+def run_live_batch(res, case):
+    rng = random.Random(case["seed"])
+    workdir = pathlib.Path(tempfile.mkdtemp(prefix="c20-", dir=os.getcwd()))
+    try:
+        for _ in range(case["n"]):
+            spec = gen_live_spec(rng)
+            lv = Live(res, spec, rng=rng, depth=rng.randint(2, 6 if case.get("tier") != "thorough" else 9), workdir=workdir)
+            lv.run()
+            if lv.done:
+                res.sample({"live_table": spec, "ops": [o["op"] for o in lv.done]})
+    finally:
+        shutil.rmtree(workdir, ignore_errors=True)
+
+
+def run_live_one(res, case):
+    workdir = pathlib.Path(tempfile.mkdtemp(prefix="c20-", dir=os.getcwd()))
+    try:
+        Live(res, case["table"], ops=case["ops"], workdir=workdir).run()
+    finally:
+        shutil.rmtree(workdir, ignore_errors=True)
+
+
 def run_case(case):
     res = Result()
     kind = case["kind"]
+    if kind == "live":
+        run_live_batch(res, case)
+        return res
+    if kind == "live-one":
+        run_live_one(res, case)
+        return res
     if kind == "chain":
         run_chain_batch(res, case)
     elif kind == "chain-one":
@@ -1561,6 +1913,22 @@ REQUIRED = [
     "rt-class:delimited:missing",
     "rt:delimited:zero-rows",
     "rt:numeric-column-checked",
+    "rt:csv+sep=tab",
+    "rt:tsv+delimiter=;",
+    "rt:tsv+sep=,",
+    "rt:csv.gz+delimiter=|",
+    "rt:tsv.gz+sep=;",
+    "live-op:set-index",
+    "live-op:clear-index",
+    "live-op:add-column",
+    "live-op:del-column",
+    "live-op:replace-column",
+    "live-op:set-title",
+    "live-op:format_column",
+    "live:set-index-moves-column",
+    "live-read:array",
+    "live-read:to_dict",
+    "live-read:write-reload",
 ]
 
 
